@@ -2,35 +2,102 @@
 (* Model: every stream over the alphabet up to MaxLen lines is fed to the    *)
 (* operational parser one line at a time; after every line the events so far  *)
 (* must equal what the declarative rules owe for the stream read so far.     *)
+(* Profile "lines": the 44 line forms with small numbers, every number       *)
+(* representable.  Profile "numbers": few line forms, numbers of every       *)
+(* magnitude class in the test-number, plan and version positions, under     *)
+(* both values of the representability parameter.                            *)
 EXTENDS TAPRules, TLC, Json, IOUtils, SequencesExt
-CONSTANTS MaxLen, MaxNum, MaxPlan
+CONSTANTS MaxLen, MaxNum, MaxPlan, Profile
 VARIABLES stream, pst, out
 
 vars == <<stream, pst, out>>
-Init == stream = <<>> /\ pst = InitP /\ out = <<>>
+TheAlphabet == IF Profile = "numbers" THEN NumberAlphabet ELSE Alphabet(MaxNum, MaxPlan)
+TheLims == IF Profile = "numbers" THEN Lims ELSE {0}
+Init == stream = <<>> /\ pst \in { InitL(lim) : lim \in TheLims } /\ out = <<>>
 Feed(ln) == /\ Len(stream) < MaxLen
             /\ LET r == Step(pst, ln) IN /\ pst' = r[1]
                                          /\ out' = Append(out, r[2])
             /\ stream' = Append(stream, ln)
-Next == \E ln \in Alphabet(MaxNum, MaxPlan) : Feed(ln)
+Next == \E ln \in TheAlphabet : Feed(ln)
 Spec == Init /\ [][Next]_vars
 
+AllOut == Append(out, End(pst))
 \* the state machine's output equals the declarative obligations (per line, and at end of stream)
-OperationalEqualsDeclarative == Append(out, End(pst)) = DeclAll(stream)
+OperationalEqualsDeclarative == AllOut = DeclAll(pst.lim, stream)
 \* the incremental run equals the batch run (sanity of Run, which trace validation uses)
-RunIsIncremental == RunAll(stream) = Append(out, End(pst))
-\* every ok / not ok line read as a TAP line yields exactly one subtest event
+RunIsIncremental == RunAllL(pst.lim, stream) = AllOut
+\* every ok / not ok line read as a TAP line yields exactly one subtest event - unless its number is not
+\* representable, then exactly one error and no subtest
 OneSubtestPerTestLine ==
     \A i \in 1..Len(stream) :
         Cardinality({ j \in 1..Len(out[i]) : out[i][j].k = "test" })
-            = IF i \in TestPos(stream) THEN 1 ELSE 0
+            = IF i \in TestPos(pst.lim, stream) THEN 1 ELSE 0
 \* verdict is monotone: once an error/bail/fail has been seen the test can never be reported good
-BadStaysBad == VerdictBad(Flatten(out), 0) => VerdictClass(Flatten(Append(out, End(pst))), 0) = "BAD"
+BadStaysBad == VerdictBad(Flatten(out), 0) => VerdictClass(Flatten(AllOut), 0) = "BAD"
+\* the whole-test verdict, for every exit status of the domain: reported bad iff the rule says bad (stated over
+\* the events and, independently, over the stream); every non-zero status makes it bad, whatever the stream;
+\* with status 0 the class of the stream decides (the table)
+VerdictOverExitDomain ==
+    LET evs == Flatten(AllOut)
+        evBad == VerdictBad(evs, 0)                     \* what the events alone amount to
+        declBad == DeclBad(pst.lim, stream, 0)          \* what the stream alone amounts to
+        cls == StreamClass(stream)
+    IN /\ evBad <=> declBad
+       /\ pst.lim = 0 => cls \in StreamClasses
+       /\ \A x \in ExitDomain :
+            /\ (VerdictClass(evs, x) = "BAD") <=> VerdictBad(evs, x)
+            /\ VerdictBad(evs, x) <=> (evBad \/ x # 0)
+            /\ x # 0 => VerdictClass(evs, x) = "BAD"
+            /\ pst.lim = 0 => VerdictClass(evs, x) = VerdictTable(cls, x)
+\* a line with an unrepresentable number owes one error and changes nothing else; representable lines are read
+\* the same under both values of the parameter
+UnrepresentableIsIgnored ==
+    \A i \in 1..Len(stream) :
+        LET ln == stream[i]
+            before == RunL(pst.lim, SubSeq(stream, 1, i - 1))[1]
+            after == RunL(pst.lim, SubSeq(stream, 1, i))[1]
+            written == IF ln.k = "test" THEN (IF Given(ln) THEN ln.n ELSE 0) ELSE ln.a
+        IN (ln.k \in {"test", "plan", "version"} /\ ~Rep(pst.lim, written, ln.z) /\ before.st = "main")
+           => /\ out[i] = <<Err("invalid-test-number")>> \/ out[i] = <<Err("invalid-plan")>>
+                 \/ out[i] = <<Err("invalid-version")>> \/ out[i] = <<Err("second-plan")>>
+                 \/ out[i] = <<Err("misplaced-version")>>
+              /\ after = [before EXCEPT !.lineno = before.lineno + 1]
 \* the parser is total: Step is defined for every line in every reachable state (TLC would report a
 \* CASE without matching arm), and its state stays in the declared shape
-\* the alphabet is exported so that the implementation harness enumerates exactly the model's input space
-EmitAlphabet == TLCGet("stats").diameter >= 0 /\ JsonSerialize("alphabet.json", SetToSeq(Alphabet(MaxNum, MaxPlan)))
 TypeOK == /\ pst.st \in {"main", "after", "yaml"}
-          /\ pst.num = Cardinality(TestPos(stream))
+          /\ pst.num = Cardinality(TestPos(pst.lim, stream))
           /\ pst.lineno = Len(stream)
+          /\ pst.lim \in Lims
+
+\* ---- exports: the implementation harness enumerates exactly the model's input space -------------------
+\* witnesses of every stream class, for the sample that goes through `meson test` (the product with ExitDomain)
+W(k, a, n, d) == Line(k, a, n, d)
+ClassWitnesses ==
+    [ empty     |-> << <<>> >>,
+      diag      |-> << <<W("comment", 0, 0, "none")>>, <<W("blank", 0, 0, "none"), W("unknown", 0, 0, "none")>>,
+                       <<W("version", 13, 0, "none"), W("comment", 0, 0, "none")>> >>,
+      plan0     |-> << <<W("plan", 0, 0, "none")>>, <<W("comment", 0, 0, "none"), W("plan", 0, 0, "none")>> >>,
+      plan0skip |-> << <<W("plan", 0, 0, "skip")>>, <<W("version", 13, 0, "none"), W("plan", 0, 0, "skip")>> >>,
+      allskip   |-> << <<W("plan", 2, 0, "none"), W("test", 1, 1, "skip"), W("test", 1, 2, "skip")>>,
+                       <<W("test", 1, 0, "skip"), W("plan", 1, 0, "none")>>,
+                       <<W("test", 1, 0, "skip")>> >>,
+      passed    |-> << <<W("plan", 2, 0, "none"), W("test", 1, 1, "none"), W("test", 1, 2, "skip")>>,
+                       <<W("test", 1, 0, "none")>>,
+                       <<W("test", 0, 1, "todo"), W("test", 1, 2, "skip"), W("plan", 2, 0, "none")>> >>,
+      failed    |-> << <<W("test", 0, 1, "none")>>, <<W("test", 1, 1, "skip"), W("test", 1, 2, "todo"), W("plan", 2, 0, "none")>> >>,
+      broken    |-> << <<W("bail", 0, 0, "none")>>, <<W("plan", 1, 0, "none")>>,
+                       <<W("test", 1, 1, "skip"), W("plan", 0, 0, "skip")>>,
+                       <<W("test", 1, 2, "skip")>> >> ]
+WitnessesAreInTheirClass ==
+    /\ DOMAIN ClassWitnesses = StreamClasses
+    /\ \A c \in StreamClasses : \A j \in 1..Len(ClassWitnesses[c]) : StreamClass(ClassWitnesses[c][j]) = c
+WitnessSeq == LET cs == SetToSeq(StreamClasses)
+              IN Flatten([ci \in 1..Len(cs) |-> [j \in 1..Len(ClassWitnesses[cs[ci]]) |->
+                                                  [cls |-> cs[ci], s |-> ClassWitnesses[cs[ci]][j]]]])
+Export == /\ TLCGet("stats").diameter >= 0
+          /\ WitnessesAreInTheirClass
+          /\ JsonSerialize("alphabet.json", SetToSeq(TheAlphabet))
+          /\ JsonSerialize("exits.json", SetToSeq(ExitDomain))
+          /\ JsonSerialize("witnesses.json", WitnessSeq)
+EmitAlphabet == Export
 =============================================================================
